@@ -6,7 +6,7 @@ fn min_usize(a: usize, b: usize) -> (r: usize)
 /// frame definition over mathematical integers: rows j with
 ///   0 <= j < length  and  idx - p <= j <= idx + f
 /// start = first such j (clamped), end = one past the last (clamped)
-pub open spec fn spec_start(b: WindowFrameBound, length: int, idx: int) -> Option<int> {
+spec fn spec_start(b: WindowFrameBound, length: int, idx: int) -> Option<int> {
     match b {
         WindowFrameBound::Preceding(ScalarValue::UInt64(None)) => Some(0),
         WindowFrameBound::Preceding(ScalarValue::UInt64(Some(n))) => Some(if idx - n >= 0 { idx - n } else { 0 }),
@@ -15,7 +15,7 @@ pub open spec fn spec_start(b: WindowFrameBound, length: int, idx: int) -> Optio
         _ => None,
     }
 }
-pub open spec fn spec_end(b: WindowFrameBound, length: int, idx: int) -> Option<int> {
+spec fn spec_end(b: WindowFrameBound, length: int, idx: int) -> Option<int> {
     match b {
         WindowFrameBound::Preceding(ScalarValue::UInt64(Some(n))) => Some(if idx >= n { idx - n + 1 } else { 0 }),
         WindowFrameBound::CurrentRow => Some(idx + 1),
@@ -25,7 +25,7 @@ pub open spec fn spec_end(b: WindowFrameBound, length: int, idx: int) -> Option<
     }
 }
 /// lower / upper row offsets (relative to idx) a legal bound denotes; None = unbounded
-pub open spec fn lo_of(b: WindowFrameBound) -> Option<int> {
+spec fn lo_of(b: WindowFrameBound) -> Option<int> {
     match b {
         WindowFrameBound::Preceding(ScalarValue::UInt64(Some(n))) => Some(-(n as int)),
         WindowFrameBound::CurrentRow => Some(0),
@@ -35,7 +35,7 @@ pub open spec fn lo_of(b: WindowFrameBound) -> Option<int> {
 }
 /// the property in set form: for a legal frame, [start,end) contains exactly the rows j of the
 /// partition with idx+lo <= j <= idx+hi
-pub proof fn lemma_frame_is_definition(f: WindowFrame, length: int, idx: int, j: int)
+proof fn lemma_frame_is_definition(f: WindowFrame, length: int, idx: int, j: int)
     requires 0 <= idx < length, spec_start(f.start_bound, length, idx) is Some, spec_end(f.end_bound, length, idx) is Some,
     ensures ({
         let s = spec_start(f.start_bound, length, idx)->Some_0;
